@@ -355,13 +355,13 @@ impl BRC20ProgEngine {
                         pending_tx_op_return_tx_id.unwrap_or([0u8; 32].into()).bytes,
                     )?;
                     receipts.push(receipt);
+                    next_tx_idx += 1;
                 }
             }
             self.db.write_fn(|db| {
                 db.remove_pending_tx(pending_tx.from.address, pending_tx.nonce.into())
             })?;
             next_nonce += 1;
-            next_tx_idx += 1;
         }
 
         Ok(receipts)
